@@ -366,8 +366,15 @@ class Prover:
     def bool_facts(self, bb):
         """comparison facts known true at bb: list of (op, a, b) over numnorm'ed terms"""
         res = []
+
+        def ok_payload(x):
+            """the `Ok(v)` payload of uN::try_from(y) is y as a number (it exists only where y fits)"""
+            if x[0] == "field" and x[2] == 0 and x[1][0] == "downcast" and x[1][2] == 0 and util.is_call(x[1][1]) and "TryFrom<" in x[1][1][1] and x[1][1][1].endswith("::try_from") and " for u" in x[1][1][1] and len(x[1][1][2]) == 1:
+                return util.numnorm(x[1][1][2][0])
+            return None
+
         for d, v in self.facts(bb):
-            d = util.numnorm(d)
+            d = util.map_term(util.numnorm(d), ok_payload)
             truth = None
             if v[0] == "is":
                 truth = bool(v[1])
@@ -398,6 +405,16 @@ class Prover:
                 res.append((op, d[2], d[3]))
             elif util.is_call(d, "core::str::<impl str>::is_empty") or util.is_call(d, "core::slice::<impl [T]>::is_empty"):
                 res.append(("Eq" if truth else "Ne", ("len", d[2][0]), ("int", 0, "usize")))
+        # a switch on an integer value itself (`match n { 0 => .., _ => .. }`)
+        for d, v in self.facts(bb):
+            d = util.map_term(util.numnorm(d), ok_payload)
+            if d[0] in ("len",) or (d[0] == "cast" and d[1] == "IntToInt") or (d[0] in ("field", "param") and False):
+                if v[0] == "is" and isinstance(v[1], int):
+                    res.append(("Eq", d, ("int", v[1], "usize")))
+                elif v[0] == "not":
+                    for x_ in v[1]:
+                        if isinstance(x_, int):
+                            res.append(("Ne", d, ("int", x_, "usize")))
         return res
 
     # ---------------------------------------------------------------- ranges
